@@ -365,7 +365,14 @@ func genCase(rnd *hx.Rand, thorough bool) []string {
 	}
 	emit(mergeOp, nil, rootTok)
 	n := 15 + rnd.Intn(40)
+	raceAt := -1
+	if rnd.Chance(1, 2) {
+		raceAt = rnd.Intn(4)
+	}
 	for i := 0; i < n; i++ {
+		if i == raceAt {
+			g.race3(ref)
+		}
 		parent, name, target, digs := g.pickPath(ref)
 		full := toks(append(append([]string(nil), parent...), name))
 		f := g.faults(digs)
@@ -533,4 +540,66 @@ func genRaceCase(rnd *hx.Rand) []string {
 		g.lines = append(g.lines, opLine([]string{"merge", "mmerge"}[rnd.Intn(2)], nil, tok), fmt.Sprintf("cwalk 8 %d", rnd.Intn(1000)))
 	}
 	return g.lines
+}
+
+// race3 emits the three-party scenario in a directory that has two different CAS
+// directories as children: a lookup of D is parked on D's slow first load while
+// D is renamed away and E is renamed to D.
+func (g *generator) race3(root *refNode) {
+	r := g.rnd
+	var p []string
+	cur := root
+	for depth := 0; depth < 6; depth++ {
+		var dirs []string
+		for k, c := range cur.children {
+			if c.kind == "dir" && c.hash != "" {
+				dirs = append(dirs, k)
+			}
+		}
+		sortStrings(dirs)
+		var pairs [][2]string
+		for _, a := range dirs {
+			for _, b := range dirs {
+				ca, cb := cur.children[a], cur.children[b]
+				if a != b && !(ca.hash == cb.hash && ca.size == cb.size) {
+					pairs = append(pairs, [2]string{a, b})
+				}
+			}
+		}
+		if len(pairs) > 0 && (r.Chance(2, 3) || depth == 5) {
+			pr := pairs[r.Intn(len(pairs))]
+			t := ""
+			for _, c := range []string{"orig", "D.orig", "z0", "moved"} {
+				if _, ok := cur.children[c]; !ok {
+					t = c
+					break
+				}
+			}
+			if t == "" {
+				return
+			}
+			g.lines = append(g.lines, strings.Join(append([]string{"race3", tokBytes(pr[0]), tokBytes(pr[1]), tokBytes(t)}, toks(p)...), " "))
+			pathD := toks(append(append([]string(nil), p...), pr[0]))
+			two := func(a, b string) []string {
+				return append([]string{strconv.Itoa(len(p) + 1)}, append(toks(append(append([]string(nil), p...), a)), toks(append(append([]string(nil), p...), b))...)...)
+			}
+			refExec(root, g.blobs, g.hashLen, "readdir", pathD)
+			refExec(root, g.blobs, g.hashLen, "rename", two(pr[0], t))
+			refExec(root, g.blobs, g.hashLen, "rename", two(pr[1], pr[0]))
+			return
+		}
+		// descend into a loadable directory
+		var down []string
+		for _, k := range dirs {
+			if cur.children[k].bad == "" {
+				down = append(down, k)
+			}
+		}
+		if len(down) == 0 {
+			return
+		}
+		k := down[r.Intn(len(down))]
+		p = append(p, k)
+		cur = cur.children[k]
+	}
 }
